@@ -48,6 +48,22 @@ CLAIMED["C14"] = ("per-serial-type evaluation of parseRecord's loop body (guard 
  "Decides the serial-type table, the 24/48-bit sign constants, the varint byte rules incl. the 9th-byte precedence, the X/M/K formulas and three-way choice, the overflow pointer/page layout and that overflow content is appended in whole pages. Not the concrete decoded values on real files.",
  "DESIGN.md §4 C14")
 
+CLAIMED["C01"] = ("traversal event-sequence tables from path enumeration of every table b-tree iteration method; canonical spill formulas and record tables vs the file format; row-mapping decision tables; error-flow rules",
+ "Decides the structural necessary conditions of a full table scan: every child incl. the right-most visited in order with no cell skipped, payload split/overflow layout/serial types per the file format, the three-way record→row mapping and rowid-alias resolution, and that definition/read errors surface. Equality with SQLite's rows on real files is not decidable statically.",
+ "DESIGN.md §4 C01")
+CLAIMED["C02"] = ("traversal event-sequence tables for the index b-tree methods (child before entry, first-child flag), adapter path rules (no silent/stale row), index-entry→row flow, collation tables",
+ "Decides that index traversals emit left child, interior entry, …, right-most child for every cell, that each index entry yields the user callback on the looked-up table row or an error, that the rowid is the last index field, and that WITHOUT ROWID lookups are typed by the table's primary key.",
+ "DESIGN.md §4 C02")
+CLAIMED["C03"] = ("decision tables by path enumeration: key conversion per Go type with column-i identity, equality cut-off, primary-key dispatch; comparison tables shared with C11; binary-search predicate orientation",
+ "Decides that key column i carries index column i's direction and validated collation, the equality scan searches and filters with the same key and stops at the first unequal record, the PK dispatch, and (through C11's rules) the comparison tables.",
+ "DESIGN.md §4 C03")
+CLAIMED["C04"] = ("ordering predicates evaluated over Order(cell key, rowid) from the SSA of the sort.Search closures; traversal tables of the rowid descent; absence-marker flow rule; varint table",
+ "Decides the three ordering predicates of the rowid search (>=, >=, ==) on the right fields, the descent through following and right-most children, first-hit-only in the leaf, that `absent` cannot be confused with a stored rowid, and the rowid varint decoding incl. 9-byte negatives.",
+ "DESIGN.md §4 C04")
+CLAIMED["C13"] = ("traversal tables of the IterMin methods incl. the first-child flag; predicate orientation of the binary searches; cut-off tables of ScanEq/ScanRange/ScanMin; comparison tables shared with C11",
+ "Decides the shape of from-key scans (search, tail iteration, child before entry, first child searched and later ones scanned), that the binary search compares (key, record) in that order with errors latched, and the range/equality cut-off tables.",
+ "DESIGN.md §4 C13")
+
 NA_REASON_NOT_BUILT = "check not built yet in this round; DESIGN.md §4 describes the structural clauses that will be claimed"
 ALL = ["C%02d" % i for i in range(1, 21)]
 
